@@ -83,6 +83,8 @@ def _module_call(ex: Exec, dotted: str, node: ast.Call):
         oid = ex.new_obj("ode")
         buf = ex.new_obj("ndarray")
         ex.wr("fld:_buf", oid, S.mk_ref(buf))
+        ex.wr("fld:ncalls", oid, S.mk_int(0))
+        ex.wr("fld:t", oid, S.mk_real(0))
         me = SV(S.mk_ref(oid), T.obj("ode"))
         ex.ghost["ode"] = me
         return me
@@ -122,8 +124,15 @@ def _method(ex: Exec, base: SV, name: str, node: ast.Call):
             t = ex.eval(node.args[0])
             oid = ex.ref_id(base)
             buf = S.un_ref(ex.rd("fld:_buf", oid))
-            # the buffer is overwritten in place and handed out
-            ex.wr("arrc", buf, sol(oid, ex.num(t)))
+            # the solver advances to tt <= t (tt < t when it gives up), records tt in
+            # `.t`, overwrites its buffer in place and hands the buffer out
+            tt = ex.fresh("tt", S.REAL)
+            ex.assume(tt <= ex.num(t))
+            # ghost bookkeeping of the library object: number of calls, time reached before this call
+            ex.wr("fld:t_prev", oid, ex.rd("fld:t", oid))
+            ex.wr("fld:ncalls", oid, S.mk_int(S.un_int(ex.rd("fld:ncalls", oid)) + 1))
+            ex.wr("fld:t", oid, S.mk_real(tt))
+            ex.wr("arrc", buf, sol(oid, tt))
             return SV(S.mk_ref(buf), ND)
         if name == "successful":
             from .engine import sv_bool
@@ -138,6 +147,17 @@ def _method(ex: Exec, base: SV, name: str, node: ast.Call):
 
 lib.METHOD_HOOKS.append(_method)
 lib.METHOD_WRITES["integrate"] = ("_buf", ("arrc",))
+
+
+def _attr(ex: Exec, base: SV, name: str):
+    if base.ty.kind == "obj" and base.ty.cls == "ode" and name in ("t", "t_prev"):
+        return SV(S.mk_real(S.un_real(ex.rd("fld:" + name, ex.ref_id(base)))), T.REAL)
+    if base.ty.kind == "obj" and base.ty.cls == "ode" and name == "ncalls":
+        return SV(S.mk_int(S.un_int(ex.rd("fld:ncalls", ex.ref_id(base)))), T.INT)
+    return None
+
+
+lib.ATTR_HOOKS.append(_attr)
 
 from . import spec as _spec  # noqa: E402
 
